@@ -141,7 +141,7 @@ def split_ns(data, pos):
         raise ValueError("bad netstring length at %d" % pos)
     n = int(data[pos:colon])
     end = colon + 1 + n
-    if end >= len(data) + 0 and data[end:end + 1] != b",":
+    if end >= len(data):
         raise ValueError("truncated netstring at %d" % pos)
     if data[end:end + 1] != b",":
         raise ValueError("netstring at %d not terminated by ','" % pos)
